@@ -1,4 +1,4 @@
-//@ unit u3c_merge props C07 also C10
+//@ unit u3c_merge props C07 C10
 // Unit U3c: merging a room definition received from a peer with the definition already held
 // (src/database/room_node.rs prepare_auth_with_history / prepare_room_with_history).
 #![feature(allocator_api)]
@@ -739,7 +739,7 @@ pub open spec fn new_admins_entitled(room0: Room, old_s: Seq<UserNode>, s: Seq<U
 //@ insert after-stmt "for new_auth in &room_node.auth_nodes"
     assert(new_groups_entitled(room_acc, old_room_node.auth_nodes@, g_final));
     proof {
-        // [new_admin_references_authored_by_admins] (known finding F10) a reference that places an entry in the room's ADMIN list and was not already held must have been authored by an admin at its date: the code never consults the author of a reference, and the entry rows are not bound to a list, so a plain member can place an admin-signed USER entry in the admin list with a reference it signs itself
+        // [new_admin_references_authored_by_admins]{C07} (known finding F10) a reference that places an entry in the room's ADMIN list and was not already held must have been authored by an admin at its date: the code never consults the author of a reference, and the entry rows are not bound to a list, so a plain member can place an admin-signed USER entry in the admin list with a reference it signs itself
         if nondet(10) { assert(new_admin_refs_by_admins(room0, old_room_node.admin_edges@, room_node.admin_edges@)); }
     }
 //@ spec
